@@ -174,6 +174,7 @@ type coverage struct {
 	Counters           map[string]int64 `json:"counters,omitempty"`
 	Extra              map[string]any   `json:"observed,omitempty"`
 	ViolationsPerKey   map[string]int   `json:"violations_per_key,omitempty"`
+	Exhaustive         bool             `json:"exhaustive,omitempty"`
 }
 
 type fileResult struct {
@@ -197,6 +198,9 @@ func (r *Result) WriteTo(path string, withFPs bool) error {
 		Violations: r.violations, Inconclusive: r.inconclusive, FatalInconclusive: r.fatalInc, Assumptions: r.assumptions}
 	f.Coverage = coverage{Evaluations: r.evaluations, DistinctNontrivial: len(r.fps), Rule: r.rule, Samples: r.samples,
 		Counters: r.counters, Extra: r.extra, ViolationsPerKey: r.vioPerKey}
+	if e, ok := r.extra["exhaustive"].(bool); ok {
+		f.Coverage.Exhaustive = e
+	}
 	if f.Coverage.Samples == nil {
 		f.Coverage.Samples = []any{}
 	}
